@@ -44,6 +44,16 @@ pub fn oracle_server() {
                 let k = req["k"].as_u64().unwrap() as usize;
                 json!({"ok": KmerGenerator::new(&seq, k).count()})
             }
+            "kmers_digest" => {
+                // count and position-sensitive digest of the item list (long strings)
+                let k = req["k"].as_u64().unwrap() as usize;
+                let (mut n, mut h) = (0u64, 0u64);
+                for (f, r) in KmerGenerator::new(&seq, k) {
+                    h = h.wrapping_mul(1000003).wrapping_add(f.wrapping_mul(31)).wrapping_add(r);
+                    n += 1;
+                }
+                json!({"ok": [n, h.to_string()]})
+            }
             "mins" => {
                 let (w, m) = (req["w"].as_u64().unwrap() as usize, req["m"].as_u64().unwrap() as usize);
                 json!({"ok": MinimiserGenerator::new(&seq, w, m).map(|(v, s, e)| json!([v, s, e])).collect::<Vec<_>>()})
